@@ -284,9 +284,11 @@ def plan(ctx, sc, role, label):
                 ops += mut.cert_ops(raw, rng)
                 if t == 11:
                     ops += mut.der_ops(raw, rng, want=ctx.pick(6, 40))
+                    ops += mut.der_tree_ops(raw, rng, full=not ctx.quick)
             if ctx.quick:
                 # sample operators but always keep the bombs
-                always = ("zbomb", "ext_u16=", "psk_")
+                always = ("zbomb", "ext_u16=", "psk_", "dertree_empty:bitstr",
+                          "dertree_empty:octstr", "dertree_trunc1:bitstr")
                 keep = [o for o in ops if o[0].startswith(always)]
                 rest = [o for o in ops if not o[0].startswith(always)]
                 rng.shuffle(rest)
@@ -450,8 +452,8 @@ def judge(ctx, key, W, R, adv, role, work, budget, peak, sent_bytes):
         ctx.violation(dict(key, clause="not_closed_after_failure", exc=cls),
                       W, "victim still open after %r" % (e,))
     sess = vic.session
-    if sess is not None and sess.resumable and not isinstance(
-            e, E.TLSRemoteAlert):
+    if sess is not None and (sess.resumable or sess.valid()) and \
+            not isinstance(e, E.TLSRemoteAlert):
         ctx.violation(dict(key, clause="resumable_after_failure", exc=cls,
                            hs_done=(R.s_hs if vrole == "server" else
                                     R.c_hs)), W,
